@@ -287,7 +287,10 @@ impl<R: Round> Context<R> {
             let context = Context::<R>::new(work_precision);
             (0, 0, FBig::new(context.repr_round_ref(x).value(), context))
         } else {
-            work_precision = self.precision + series_guard_digits + pow_guard_digits;
+            // the reduction x - s*log(B) cancels the leading log_B(|s|) digits of x
+            let magnitude_digits = (x.log2_est() / B.log2_est()).max(0.) as usize + 1;
+            work_precision =
+                self.precision + series_guard_digits + pow_guard_digits + magnitude_digits;
             let context = Context::<R>::new(work_precision);
             let x = FBig::new(context.repr_round_ref(x).value(), context);
             let logb = context.ln_base::<B>();
